@@ -244,6 +244,7 @@ class Meaning:
         self.misresolving = set()                # hrefs of @imports in imported sheets that would resolve to
                                                  # something else if they stood in the main sheet
         self.top_imports = []                    # (href, available) of the sheet's own @import rules
+        self.top_media = []                      # their media
 
     def comps(self, cs, href, ctx, nested=False):
         out = []
@@ -276,6 +277,7 @@ class Meaning:
                 m = media + ((r[2],) if r[2] != 'all' else ())
                 if ctx['depth'] == 0:
                     self.top_imports.append((r[1], full in self.vfs and full not in chain))
+                    self.top_media.append(r[2])
                 else:
                     try:
                         if up.urljoin(chain[0], r[1]) != full:
@@ -339,6 +341,13 @@ def url_diffs(a, b, out):
             return False
         return all(url_diffs(x, y, out) for x, y in zip(a, b))
     return a == b
+
+
+def unmerged_imports(orig, flat):
+    """@imports left in a flattened sheet that had to be merged: no media and the target is available.
+    (An @import is kept only when its target is unavailable or cannot be wrapped in its media.)"""
+    return [h for (h, avail), m in zip(flat.top_imports, flat.top_media) if avail and m == 'all'
+            and h not in orig.misresolving]
 
 
 def compare_meaning(orig, flat):
